@@ -472,8 +472,8 @@ class Check:
         wall = time.time() - t0
         samples = [{"case": self.describe(c), "observed": jsonable(o)}
                    for c, o in list(zip(cases, observed))[:3]]
-        if len(cases) > 6:
-            k = len(cases) // 2
+        if len(observed) > 6:
+            k = len(observed) // 2
             samples.append({"case": self.describe(cases[k]), "observed": jsonable(observed[k])})
         ev = {
             "property_id": pid, "tier": self.tier, "seed": self.seed, "level": "proof",
